@@ -346,6 +346,20 @@ def replay_cli(chk, rng, what, only_mode=None):
                 return
         ed_ = read_elast_data(os.path.join(ex, "input02"))
         rho = ed_.cellmass / Vb * gcm3
+        # each row's moduli are the fit of the static table at THAT row's volume (supplied components; the table is symmetry-consistent)
+        tv = numpy.array([v.volume for v in ed_.volumes])
+        for key in list(ed_.volumes[0].static_elastic_modulus)[:4]:
+            col = "c%d%d" % key.v
+            if col not in df.columns:
+                continue
+            tab = numpy.array([v.static_elastic_modulus[key] for v in ed_.volumes])
+            pk = numpy.polyfit(strain(tv[0], tv), tab, 2)
+            want_k = numpy.polyval(pk, strain(tv[0], Vb))
+            if not numpy.abs(df[col].to_numpy() - want_k).max() <= 1e-4 * numpy.abs(want_k).max():
+                r_bad = int(numpy.argmax(numpy.abs(df[col].to_numpy() - want_k)))
+                chk.violation("run-static:moduli-at-row-volume[%s]" % mode, "mode %s: %s = %.6g in the row with V = %.6g A^3, the finite-strain fit of the static table at that volume "
+                              "is %.6g" % (mode, col, df[col].iloc[r_bad], df["V"].iloc[r_bad], want_k[r_bad]), dict(mode=mode, column=col))
+                return
         if numpy.abs(df["density"].to_numpy() - rho).max() > 1e-6 * rho.max():
             chk.violation("run-static:density[%s]" % mode, "density is not cell mass / V in g/cm^3", dict(mode=mode))
             return
